@@ -11,7 +11,8 @@ ctx = common.Ctx("SETUP", "quick", 0)
 tr = ctx.build_harness("translate")
 for what, out in (("grpcstatus", "GrpcStatusGen.v"), ("consts", "ConstGen.v"),
                   ("gofn-math", "GoFnMathGen.v"), ("gofn-mp", "GoFnMpGen.v"), ("gofn-httpgun", "GoFnHttpgunGen.v"),
-                  ("gofn-istep", "GoFnIstepGen.v"), ("gofn-waiter", "GoFnWaiterGen.v")):
+                  ("gofn-istep", "GoFnIstepGen.v"), ("gofn-waiter", "GoFnWaiterGen.v"),
+                  ("gofn-instance", "GoFnInstanceGen.v")):
     common.translate(ctx, what, out)
 props = sorted(os.path.basename(p)[:-10] for p in glob.glob(os.path.join(common.VERIF, "checks", "C*.meta.json")))
 targets = []
@@ -19,6 +20,8 @@ for p in props:
     for t in ("Properties/%s.vo" % p, "Extract/Extract%s.vo" % p):
         if os.path.exists(os.path.join(common.COQ, t[:-1])):
             targets.append(t)
+# heavy bridge proofs that depend on generated syntax (otherwise built by the first run of the check)
+targets.append("Proofs/InstanceRunProofs.vo")
 ok = ctx.coq(targets, what="setup coq build")
 for d in sorted(glob.glob(os.path.join(common.HARNESS, "cmd", "h*"))):
     ctx.build_harness(os.path.basename(d))
